@@ -533,6 +533,74 @@ pub fn confirm_in_fresh_process(ctx: &Ctx, path: &Path, v: &Violation) -> bool {
     false
 }
 
+/// Runs the scenario of `v` in a fresh process; Some(violation as that process reported it:
+/// same class, its detail and event-log hash) iff the class shows there.
+pub fn run_in_fresh_process(ctx: &Ctx, v: &Violation) -> Option<Violation> {
+    let dir = ctx.verif_dir.join("replays");
+    let _ = std::fs::create_dir_all(&dir);
+    let path = dir.join(format!(".candidate-{}-{}.json", v.prop, std::process::id()));
+    let doc = json!({"property": v.prop, "class": v.class, "scenario": v.scenario});
+    std::fs::write(&path, doc.to_string()).ok()?;
+    let exe = std::env::current_exe().ok()?;
+    let out = std::process::Command::new(exe)
+        .arg("check")
+        .arg(&ctx.prop)
+        .arg("--replay")
+        .arg(&path)
+        .env("VERIF_DIR", &ctx.verif_dir)
+        .env("VERIF_REPLAY_CHILD", "1")
+        .output();
+    let _ = std::fs::remove_file(&path);
+    let out = out.ok()?;
+    if out.status.code() != Some(1) {
+        return None;
+    }
+    let text = String::from_utf8_lossy(&out.stdout).to_string();
+    let want_class = format!("REPLAYED class={} event_log_hash=", v.class);
+    let mut lines = text.lines();
+    while let Some(l) = lines.next() {
+        if let Some(h) = l.trim().strip_prefix(&want_class) {
+            let log_hash = u64::from_str_radix(h.trim(), 16).ok()?;
+            let detail = lines.next().map(|d| d.trim().trim_start_matches("detail=").to_string()).unwrap_or_default();
+            let mut nv = v.clone();
+            nv.log_hash = log_hash;
+            nv.detail = detail;
+            return Some(nv);
+        }
+    }
+    None
+}
+
+/// Greedy minimisation with one fresh process per candidate (slow; small budget).
+pub fn minimise_fresh(ctx: &Ctx, v: &Violation, shrink: ShrinkFn, budget: usize) -> Violation {
+    let mut best = v.clone();
+    let mut spent = 0usize;
+    let mut seen: std::collections::HashSet<String> = std::collections::HashSet::new();
+    seen.insert(best.scenario.to_string());
+    loop {
+        let mut improved = false;
+        for cand in shrink(&best.scenario) {
+            if spent >= budget {
+                return best;
+            }
+            if !seen.insert(cand.to_string()) {
+                continue;
+            }
+            spent += 1;
+            let mut c = best.clone();
+            c.scenario = cand;
+            if let Some(found) = run_in_fresh_process(ctx, &c) {
+                best = found;
+                improved = true;
+                break;
+            }
+        }
+        if !improved {
+            return best;
+        }
+    }
+}
+
 fn confirm_once(ctx: &Ctx, path: &Path, v: &Violation, exact: bool) -> bool {
     let exe = std::env::current_exe().expect("current_exe");
     let out = std::process::Command::new(exe)
@@ -598,7 +666,22 @@ pub fn conclude(
             continue;
         }
         let mut reported = false;
-        for v in vs.iter().take(5) {
+        // up to five instances per kind of scenario (the "origin" field, where a check has
+        // several kinds): a class may be seen in one kind through state that leaks between the
+        // simulated processes of this OS process (not replayable) and in another kind
+        // within one scenario (replayable)
+        let mut per_origin: BTreeMap<String, usize> = BTreeMap::new();
+        let candidates: Vec<&&Violation> = vs
+            .iter()
+            .filter(|v| {
+                let o = v.scenario.get("origin").and_then(|x| x.as_str()).unwrap_or("").to_string();
+                let n = per_origin.entry(o).or_insert(0);
+                *n += 1;
+                *n <= 5
+            })
+            .take(15)
+            .collect();
+        for v in candidates {
             // Re-run the unminimised scenario first: it has to reproduce from its explicit form.
             let first = replay(&v.scenario);
             let Some(mut base) = first.into_iter().find(|x| &x.class == class) else {
@@ -613,6 +696,8 @@ pub fn conclude(
             base.sim_seed = v.sim_seed;
             let min = minimise(&base, replay, shrink, 400);
             let path = write_replay(ctx, &min, v);
+            let mut min = min;
+            let mut path = path;
             if !confirm_in_fresh_process(ctx, &path, &min) {
                 eprintln!(
                     "note: replay file {} did not reproduce class {} with the recorded event-log hash in a fresh process",
@@ -620,7 +705,19 @@ pub fn conclude(
                     class
                 );
                 let _ = std::fs::remove_file(&path);
-                continue;
+                // The scenario was minimised inside this OS process. If the engine keeps state
+                // outside the simulated process (statics, thread-locals), earlier runs of the
+                // minimiser may have supplied part of the history, and the minimised scenario
+                // is no longer self-contained. Fall back: does the unminimised scenario show
+                // the class in a fresh process? Then minimise there, one process per candidate.
+                let Some(fresh) = run_in_fresh_process(ctx, &base) else { continue };
+                eprintln!("note: the unminimised scenario of sim {} reproduces class {} in a fresh process; minimising with one fresh process per candidate", v.sim_index, class);
+                min = minimise_fresh(ctx, &fresh, shrink, 60);
+                path = write_replay(ctx, &min, v);
+                if !confirm_in_fresh_process(ctx, &path, &min) {
+                    let _ = std::fs::remove_file(&path);
+                    continue;
+                }
             }
             unlisted += 1;
             reported = true;
